@@ -23,7 +23,9 @@
 (* Record contents are abstracted to their effect on the observable projection of AclState *)
 (* (permissions, statuses, invites, pending requests, read-key generation ids, head); the  *)
 (* guards are transcribed from validator.go, the effects from aclstate.go apply*.          *)
-(* Cryptography is symbolic: a record carries three booleans (cidOk, sigOk, accOk).        *)
+(* Cryptography is symbolic: a record carries three booleans (cidOk, sigOk, accOk); the    *)
+(* harness renders a false boolean in several ways (altered bytes, a genuine value          *)
+(* transplanted from another accepted record, a value made with another key, none).         *)
 (*                                                                                         *)
 (* Deviations (constants, FALSE in every registered configuration):                        *)
 (*   ServeFromIndexNotOrder  RecordsAfter passes the 0-based index of the record to        *)
@@ -310,7 +312,9 @@ Init ==
     /\ stor = [r \in Replicas |-> [recs |-> <<SRec(RootRec, 1)>>, head |-> 1]]
     /\ okCatch = TRUE /\ okMig = TRUE /\ okRej = TRUE
 
-\* the acceptor validates against the whole log and signs
+\* the acceptor validates against the whole log and signs. (How the identities inside the record
+\* are encoded - canonically or in a byte-different, semantically equal way - is no part of the
+\* abstract record; the behaviour generator and the recorder vary it.)
 Accept(a, cs) ==
     /\ Len(log) < MaxLog             \* cs \in ValidCs(lst, a, Len(log) + 1): supplied by Next
     /\ LET rec == Rec(Len(log) + 1, Len(log), a, cs)
